@@ -227,7 +227,11 @@ class Ctx:
             self.samples.append(sample)
 
     def budget(self, quick, thorough):
-        return thorough if self.tier == "thorough" else quick
+        """loop sizes: the numbers given by the property modules are scaled so that a quick run takes
+        some tens of seconds and a thorough run some minutes (both are additionally capped by time_left)"""
+        if self.tier == "thorough":
+            return max(1, int(thorough * 2))
+        return max(1, int(quick * 2.2))
 
     def time_left(self, limit_quick=100, limit_thorough=1200):
         lim = limit_thorough if self.tier == "thorough" else limit_quick
